@@ -88,6 +88,11 @@ type FileInfo struct {
 	// positionsDetected: DelimiterPositions were found from the spaces of the file when it was read.
 	positionsDetected bool
 
+	// withoutNull, allowUnevenFields: the import options the file was read with when it was first loaded in the
+	// transaction; the reload by the first update access reads it the same way.
+	withoutNull       bool
+	allowUnevenFields bool
+
 	Handler *file.Handler
 
 	ForUpdate bool
